@@ -13,6 +13,7 @@
 -/
 import AdaptixProofs.Lemmas.LayoutTrailLocate
 import AdaptixProofs.Lemmas.LayoutTrailWitness
+import AdaptixProofs.Lemmas.LayoutTrailModes
 
 namespace Adaptix.Layout.C05
 
@@ -265,6 +266,69 @@ theorem modes_in_generation_order (cfg : LoadCfg) (crown : InpCrown) (data : Val
     simpa [hm, Fault.report] using hfirst (by simp [hm]) f rest hL
 
 
+/-- **FIRST raises exactly the first error ALL collects** (one loader configuration, the two debug modes; no
+    ExtraTargets fields): stated without any specification -/
+theorem first_raises_head_of_all (cfg : LoadCfg) (crown : InpCrown) (data : Val) (hb : isBranch crown = true)
+    (hT : cfg.move.targetIds = []) (e : TErr) :
+    loadModel (withMode cfg .first) crown data = .error e ↔
+      ∃ rest, loadModel (withMode cfg .all) crown data = .aggregate (e :: rest) := by
+  obtain ⟨TF, hTF, hokF, _, hF⟩ := loadModel_outcome (withMode cfg .first) crown data hb
+  obtain ⟨TA, hTA, hokA, hA, _⟩ := loadModel_outcome (withMode cfg .all) crown data hb
+  have h1 := hTF.nil_of_no_targets hT
+  have h2 := hTA.nil_of_no_targets hT
+  subst h1 h2
+  rw [evts_withMode] at hokF hF hokA hA
+  simp only [List.append_nil] at hokF hF hokA hA
+  cases hE : evts cfg crown [] data with
+  | nil =>
+    obtain ⟨_, _, h1⟩ := hokF hE
+    obtain ⟨_, _, h2⟩ := hokA hE
+    rw [h1, h2]
+    constructor
+    · intro h; cases h
+    · rintro ⟨_, h⟩; cases h
+  | cons f rest =>
+    have h1 := hF (by simp [withMode]) f rest hE
+    have h2 := hA rfl (by simp [hE])
+    rw [h1, h2, hE]
+    simp only [withMode, Fault.report, List.map_cons]
+    constructor
+    · intro h
+      cases h
+      exact ⟨_, rfl⟩
+    · rintro ⟨r, h⟩
+      simp only [LoadOutcome.aggregate.injEq, List.cons.injEq] at h
+      rw [h.1]
+
+/-- **DISABLE raises the same fault as FIRST, with nothing attached** (same configuration, no ExtraTargets) -/
+theorem disable_raises_first_fault_untrailed (cfg : LoadCfg) (crown : InpCrown) (data : Val)
+    (hb : isBranch crown = true) (hT : cfg.move.targetIds = []) :
+    (faults cfg crown [] data = [] →
+      (∃ a x, loadModel (withMode cfg .first) crown data = .ok a x) ∧
+      (∃ a x, loadModel (withMode cfg .disable) crown data = .ok a x)) ∧
+    (faults cfg crown [] data ≠ [] → ∃ f ∈ faults cfg crown [] data,
+      loadModel (withMode cfg .first) crown data = .error f.abs ∧
+      loadModel (withMode cfg .disable) crown data = .error f.rel) := by
+  obtain ⟨TF, hTF, hokF, _, hF⟩ := loadModel_outcome (withMode cfg .first) crown data hb
+  obtain ⟨TD, hTD, hokD, _, hD⟩ := loadModel_outcome (withMode cfg .disable) crown data hb
+  have h1 := hTF.nil_of_no_targets hT
+  have h2 := hTD.nil_of_no_targets hT
+  subst h1 h2
+  rw [evts_withMode] at hokF hF hokD hD
+  simp only [List.append_nil] at hokF hF hokD hD
+  have hp := evts_perm_faults cfg crown [] data
+  constructor
+  · intro h
+    have hE : evts cfg crown [] data = [] := by simpa [h] using hp
+    exact ⟨hokF hE, hokD hE⟩
+  · intro h
+    cases hE : evts cfg crown [] data with
+    | nil => exact absurd (by simpa [hE] using hp.symm) h
+    | cons f rest =>
+      refine ⟨f, hp.subset (by rw [hE]; simp), ?_, ?_⟩
+      · simpa [withMode, Fault.report] using hF (by simp [withMode]) f rest hE
+      · simpa [withMode, Fault.report] using hD (by simp [withMode]) f rest hE
+
 /-! ## 5. Witnesses: every hypothesis discharged on one non-degenerate layout
 
   `wCrown`: `a ↦ a`, `b ↦ n.b`, `c ↦ n.c`, `x ↦ n.l[0]`, `y ↦ n.l[1].y`, `z ↦ z` (dict crowns at depths 0, 1, 3, a
@@ -392,6 +456,19 @@ example : loadModel (wCfg .all) wCrown wDataX =
     .aggregate [⟨[.s "n", .s "l", .i 0, .i 0], .other "ValueError" (.str "bad")⟩] := by rfl
 example : loadModel (wCfg .first) wCrown wData = .error ⟨[], .noRequiredFields ["a"] wData⟩ := by rfl
 example : loadModel (wCfg .disable) wCrown wData = .error ⟨[], .noRequiredFields ["a"] wData⟩ := by rfl
+
+theorem first_raises_head_of_all_witness :
+    ∃ rest, loadModel (withMode (wCfg .disable) .all) wCrown wData =
+      .aggregate (⟨[], .noRequiredFields ["a"] wData⟩ :: rest) :=
+  (first_raises_head_of_all (wCfg .disable) wCrown wData rfl rfl _).1 (by rfl)
+
+theorem disable_raises_first_fault_untrailed_witness : ∃ f ∈ faults (wCfg .all) wCrown [] wDataX,
+    loadModel (withMode (wCfg .all) .first) wCrown wDataX = .error f.abs ∧
+    loadModel (withMode (wCfg .all) .disable) wCrown wDataX = .error f.rel :=
+  (disable_raises_first_fault_untrailed (wCfg .all) wCrown wDataX rfl rfl).2 (by
+    have : faults (wCfg .all) wCrown [] wDataX =
+      [.field [.s "n", .s "l", .i 0] "x" (.str "bad") ⟨[.i 0], .other "ValueError" (.str "bad")⟩] := by rfl
+    rw [this]; simp)
 
 /-! ## 6. Non-vacuity: a loader with ONE `has_not_found_error` flag for all crowns violates section 2 -/
 
